@@ -88,6 +88,7 @@ def reader_ownership(ctx, rule):
 
 
 def ordinal_rule(ctx, rule):
+    from ..core import sym_paths
     fv = ctx.need(rule, NEXT)
     if fv is None:
         return
@@ -100,46 +101,59 @@ def ordinal_rule(ctx, rule):
     sigs = []
     for i, arm in enumerate(m["arms"]):
         variant = norm_path(arm["pat"].get("path", "")).split("::")[-1] or "arm%d" % i
-        ifs = [n for n in walk(arm["body"]) if n.get("k") == "if" and n["cond"].get("k") == "letexpr"]
-        if len(ifs) != 1:
-            ctx.fail(rule, "next:%s:some_path" % variant, "expected one `if let Some(record)` in the arm", line_of(arm["body"]))
+        paths = sym_paths(fv, arm["body"])
+        delivered = []
+        nothing = []
+        for sp in paths:
+            res = sp.ret if sp.ret is not None else sp.value
+            if res is None:
+                continue
+            if some_of(res) is not None:
+                delivered.append((sp, some_of(res)))
+            elif is_none(res):
+                nothing.append(sp)
+        if len(delivered) != 1 or not nothing:
+            ctx.fail(rule, "next:%s:some_path" % variant, "expected one path delivering Some(Sequence{..}) and a path "
+                     "delivering None in the %s arm (found %d / %d)" % (variant, len(delivered), len(nothing)), line_of(arm["body"]))
             continue
-        then = ifs[0]["then"]
-        try:
-            state, eff = straightline(fv, then.get("stmts", []) + ([then["expr"]] if then.get("expr") else []), [cr])
-        except Unsupported as e:
-            ctx.fail(rule, "next:%s:some_path" % variant, str(e), line_of(then))
-            continue
-        ctx.check(rule, "next:%s:bump" % variant, state[cr] == mk_bin("+", cr, L(1)),
+        sp, rec = delivered[0]
+        after = sp.state.get(cr, cr)
+        ctx.check(rule, "next:%s:bump" % variant, poly(after) == poly(mk_bin("+", cr, L(1))),
                   "ordinal += 1 exactly once on the Some path",
-                  "ordinal after a delivered record is `%s`, expected current_record + 1" % show(state[cr]),
-                  line_of(then))
-        rets = [e for e in eff if e[0] == "ret"]
-        nt = None
-        st = None
-        if rets:
-            s = some_of(rets[0][1])
-            if s is not None and s[0] == "struct":
-                st = dict(s[2])
-                nt = st.get("n")
+                  "ordinal after a delivered record is `%s`, expected current_record + 1" % show(after), line_of(arm["body"]))
+        st = dict(rec[2]) if rec[0] == "struct" else None
+        nt = st.get("n") if st else None
         okn = nt is not None and poly(nt) == poly(cr)
         ctx.check(rule, "next:%s:n" % variant, okn, "n = pre-increment ordinal (%s)" % (show(nt) if nt else "?"),
                   "delivered ordinal is `%s`; expected the value of current_record before the increment "
-                  "(numbering 0,1,2,.. without gaps)" % (show(nt) if nt else "<no Some(Sequence{..}) returned>"),
-                  line_of(then))
-        # None path: no bump
-        others = [w for w, _ in self_field_writes(fv, "current_record", arm["body"])
-                  if not any(a is then for a in fv.ancestors(w))]
-        ctx.check(rule, "next:%s:none_path" % variant, not others, "no ordinal change when nothing is delivered",
-                  "current_record changes on a path that delivers no record", line_of(others[0]) if others else None)
+                  "(numbering 0,1,2,.. without gaps)" % (show(nt) if nt else "<no Sequence{..} delivered>"), line_of(arm["body"]))
+        okz = all(sp2.state.get(cr, cr) == cr for sp2 in nothing)
+        ctx.check(rule, "next:%s:none_path" % variant, okz, "no ordinal change when nothing is delivered",
+                  "current_record changes on a path that delivers no record", line_of(arm["body"]))
+        # a record is delivered exactly when the underlying reader yields one
+        took = [t for t, pol, _ in sp.conds if t[0] == "iflet" and pol and t[2][0] == "call" and t[2][1].endswith("Iterator::next")]
+        ctx.check(rule, "next:%s:one_per_record" % variant, len(took) == 1, "one Sequence per record of the underlying reader",
+                  "the delivering path does not take exactly one record from the underlying reader", line_of(arm["body"]))
         if st is not None:
-            sig = repr(alpha((state[cr], tuple(sorted(st.items()))))).replace("fastq", "fasta").replace("Fastq", "Fasta")
+            st2 = dict(st)
+            st2["n"] = ("npoly", repr(sorted(poly(nt).items()))) if nt is not None else ("none",)
+            sig = repr(alpha(("sig", repr(sorted(poly(after).items())), tuple(sorted(st2.items()))))) \
+                .replace("fastq", "fasta").replace("Fastq", "Fasta")
             sigs.append((variant, sig))
     if len(sigs) == 2:
         ctx.check(rule, "next:arms_agree", sigs[0][1] == sigs[1][1], "FASTA and FASTQ arms build the record identically",
                   "the %s and %s arms of Sequences::next differ in how they build the record/ordinal"
                   % (sigs[0][0], sigs[1][0]), fv.fn["sp"])
-    ctx.floor(rule, 7)
+    ctx.floor(rule, 9)
+
+
+def poly_or_repr(t, cr):
+    try:
+        if contains(t, lambda s_: s_ == cr):
+            return repr(sorted(poly(t).items()))
+    except Exception:
+        pass
+    return repr(t)
 
 
 def write_at_calls(fv):
